@@ -89,14 +89,12 @@ impl MT941 {
         let field_64 = parser.parse_optional_field::<Field64>("64")?;
 
         // Parse optional forward available balance (can be repetitive)
+        parser = parser.with_duplicates(true);
         let mut field_65_vec = Vec::new();
         while parser.detect_field("65") {
-            if let Ok(field) = parser.parse_field::<Field65>("65") {
-                field_65_vec.push(field);
-            } else {
-                break;
-            }
+            field_65_vec.push(parser.parse_field::<Field65>("65")?);
         }
+        parser = parser.with_duplicates(false);
         let field_65 = if field_65_vec.is_empty() {
             None
         } else {
